@@ -305,9 +305,9 @@ class Recorder:
             self.errors[name] = type(e).__name__ + ': ' + str(e)[:200] + ' @ ' + traceback.format_exc().strip().split('\n')[-3][:160]
 
 
-def export_model(m, rec, spec, want, nwin):
-    """export all representations of the model `m` (CouplingModel + MPOModel [+ NearestNeighborModel])"""
-    from tenpy.algorithms import exact_diag as ED
+def export_basic(m, rec, nwin):
+    """geometry, term containers (with the graph / grids / term list built from them) and the local operator matrices of the
+    CouplingModel `m`; needs no H_MPO (also used when calc_H_MPO raised)"""
     from tenpy.models import model as M
     from tenpy.networks import mpo as MPO
     lat = m.lat
@@ -405,8 +405,58 @@ def export_model(m, rec, spec, want, nwin):
                 rec.mats['op/%d/%s' % (u, op)] = s.get_op(op).to_ndarray()
             except Exception:
                 pass
+
+
+def mpo_onsite_block(H, k):
+    """the on-site operator the MPO holds for site k: the block W[k][IdL, IdR] (plus its conjugate for explicit_plus_hc)"""
+    W = H.get_W(k)
+    a = W.take_slice([H.get_IdL(k), H.get_IdR(k)], ['wL', 'wR']).itranspose(['p', 'p*']).to_ndarray()
+    if H.explicit_plus_hc:
+        a = a + a.conj().T
+    return a
+
+
+def sanity_error(H):
+    try:
+        H.test_sanity()
+    except Exception as e:
+        return type(e).__name__ + ': ' + str(e)[:60]
+    return None
+
+
+def export_model(m, rec, spec, want, nwin, unsorted_H=None):
+    """export all representations of the model `m` (CouplingModel + MPOModel [+ NearestNeighborModel]).
+    unsorted_H: for a model built with sort_mpo_legs=True, the MPO of the same model before MPO.sort_legcharges() (or None)"""
+    from tenpy.algorithms import exact_diag as ED
+    from tenpy.models import model as M
+    from tenpy.networks import mpo as MPO
+    export_basic(m, rec, nwin)
+    lat = m.lat
+    sites = lat.mps_sites()
+    L = lat.N_sites
+    finite = lat.bc_MPS == 'finite'
+    N = L if finite else nwin * L
+    out = rec.info
     # ---------------- MPO
     H = m.H_MPO
+    # an MPO the model itself sorted (sort_mpo_legs=True): is it still a consistent MPO?  sort_legs_breaks_sanity is True exactly
+    # when the MPO before sorting passes test_sanity, the model's (sorted) MPO does not (incompatible LegCharge), and sorting a
+    # copy of the unsorted MPO reproduces that
+    out['mpo_sanity_error'] = sanity_error(H)
+    out['sort_legs_breaks_sanity'] = False
+    if unsorted_H is not None and out['mpo_sanity_error'] is not None and 'incompatible LegCharge' in out['mpo_sanity_error']:
+        import copy as _copy0
+        if sanity_error(unsorted_H) is None:
+            H0 = _copy0.deepcopy(unsorted_H)
+            try:
+                H0.sort_legcharges()
+                out['sort_legs_breaks_sanity'] = 'incompatible LegCharge' in (sanity_error(H0) or '')
+            except Exception as e:
+                out['sort_legs_breaks_sanity'] = 'incompatible LegCharge' in str(e)
+    if not finite:
+        # on-site blocks of the MPO on the two edge sites of the window (the bond form counts them half there)
+        for k_ in (0, N - 1):
+            rec.run('mpo_onsite/%d' % k_, lambda k_=k_: mpo_onsite_block(H, k_))
     out['mpo_max_range'] = None if H.max_range is None else (float(H.max_range) if np.isfinite(H.max_range) else 'inf')
     out['mpo_chi'] = [int(x) for x in H.chi]
     out['mpo_explicit_plus_hc'] = bool(H.explicit_plus_hc)
@@ -577,14 +627,27 @@ def run_spec(case, npz_path):
         except Exception as e:
             return {'error': 'call %d %s raised %s: %s' % (n, c['fn'], type(e).__name__, str(e)[:160]),
                     'error_call': n, 'error_type': type(e).__name__}
+    unsorted_H = None
     try:
         H = m.calc_H_MPO()
         if spec.get('sort_mpo_legs'):
+            import copy as _copy
+            unsorted_H = _copy.deepcopy(H)
             H.sort_legcharges()
         M.MPOModel.__init__(m, lat, H)
     except Exception as e:
-        return {'error': 'calc_H_MPO raised %s: %s' % (type(e).__name__, str(e)[:200]), 'error_type': type(e).__name__,
-                'tb': traceback.format_exc()[-600:]}
+        res = {'error': 'calc_H_MPO raised %s: %s' % (type(e).__name__, str(e)[:200]), 'error_type': type(e).__name__,
+               'tb': traceback.format_exc()[-600:]}
+        # the term containers and local operators, for the oracle to decide whether the terms sum to the zero operator
+        try:
+            export_basic(m, rec, case.get('nwin', 2))
+            np.savez(npz_path, **rec.mats)
+            res.update(rec.info)
+            res['errors'] = rec.errors
+            res['npz'] = npz_path
+        except Exception:
+            res['export_basic_error'] = traceback.format_exc()[-400:]
+        return res
     # make it a nearest-neighbour model as well when possible (so that group_sites etc. treat H_bond)
     try:
         Hb = m.calc_H_bond()
@@ -595,7 +658,7 @@ def run_spec(case, npz_path):
         M.NearestNeighborModel.__init__(m, lat, Hb)
     except Exception:
         pass
-    export_model(m, rec, spec, want, case.get('nwin', 2))
+    export_model(m, rec, spec, want, case.get('nwin', 2), unsorted_H=unsorted_H)
     np.savez(npz_path, **rec.mats)
     res = dict(rec.info)
     res['errors'] = rec.errors
@@ -620,7 +683,13 @@ def run_predefined(case, npz_path):
     want = ['bond', 'exporters', 'convert', 'options'] if isinstance(m, M.NearestNeighborModel) else ['exporters', 'options']
     if isinstance(m, M.CouplingModel) and not isinstance(m, M.NearestNeighborModel):
         want.append('bond')
-    export_model(m, rec, {'segment': case.get('segment')}, want, case.get('nwin', 2))
+    unsorted_H = None
+    if case['params'].get('sort_mpo_legs'):
+        try:
+            unsorted_H = cls(dict(case['params'], sort_mpo_legs=False)).H_MPO
+        except Exception:
+            unsorted_H = None
+    export_model(m, rec, {'segment': case.get('segment')}, want, case.get('nwin', 2), unsorted_H=unsorted_H)
     np.savez(npz_path, **rec.mats)
     res = dict(rec.info)
     res['errors'] = rec.errors
